@@ -151,6 +151,9 @@ def _assert_editable(inst: "_Instance") -> None:
     if parent is not None and getattr(parent, "_elaborated", None) is not None:
         msg = f"Cannot change the connections of {inst}: {parent} has been elaborated."
         raise RuntimeError(msg)
+    if parent is not None and getattr(parent, "_frozen", False):
+        msg = f"Cannot change the connections of {inst}: elaboration of {parent} has begun."
+        raise RuntimeError(msg)
 
 
 def _mult(inst: "Instance", other: int) -> "InstanceArray":
